@@ -8,6 +8,12 @@ pub const CORPUS_README: &str = include_str!("../../corpus/readme_exprs.txt");
 /// Expressions named in the property records and found while probing (deviations and their
 /// conforming neighbours).
 pub const CORPUS_EXTRA: &[&str] = &[
+    "{a,a/b}/*",
+    "{a/b,a}/*.txt",
+    "{src,src/lib}/**/*.rs",
+    "{a,a/b,a/b/c}/*",
+    "x/{a,a/b}/*",
+    "{a/b,a/b/c}/**",
     "**/?*",
     "**/?*?*",
     "**/?*/?*",
@@ -447,6 +453,34 @@ pub fn branch_shapes(rng: &mut Rng, n: usize) -> Vec<String> {
     const CTX_R: &[&str] = &["", "x", "/x", "*x", "{e,f}", "{/e,f}", "<y:1,>", "/**", "{**/e,f}"];
     let mut out = Vec::new();
     for _ in 0..n {
+        if rng.chance(1, 6) {
+            // Two or three branches directly adjacent, their alternatives of one to three tokens
+            // drawn from wildcard-edged pieces (adjacency is judged from both sides).
+            const PIECE: &[&str] = &["a*", "*a", "a", "c*", "d?$", "$", "*", "b", "a?*", "x/", "/y", "**/z", "c$"];
+            let mut e = String::new();
+            e.push_str(rng.pick_str(&["", "", "x", "x/"]));
+            for _ in 0..rng.range(2, 3) {
+                if rng.chance(1, 4) {
+                    e.push('<');
+                    e.push_str(rng.pick_str(PIECE));
+                    e.push_str(rng.pick_str(&[":2", ":1,2", ":1,", ""]));
+                    e.push('>');
+                }
+                else {
+                    e.push('{');
+                    for j in 0..rng.range(1, 3) {
+                        if j > 0 {
+                            e.push(',');
+                        }
+                        e.push_str(rng.pick_str(PIECE));
+                    }
+                    e.push('}');
+                }
+            }
+            e.push_str(rng.pick_str(&["", "", "y", "*"]));
+            out.push(e);
+            continue;
+        }
         let depth = rng.range(1, 3);
         let mut e = String::new();
         fn build(rng: &mut Rng, depth: usize, out: &mut String) {
@@ -709,6 +743,10 @@ pub fn invariant_variants(rng: &mut Rng) -> String {
                     cs.insert(i, c);
                 }
             },
+            6 => {
+                // One branch continues the other with whole components.
+                return format!("{}/{}", t.trim_end_matches('/'), rng.pick_str(&["b", "c/d", "x"]));
+            },
             5 => {
                 // The same text with one character written as a once-or-twice repetition.
                 let idx: Vec<usize> = (0..cs.len()).filter(|i| cs[*i].is_ascii_alphanumeric()).collect();
@@ -734,7 +772,9 @@ pub fn invariant_variants(rng: &mut Rng) -> String {
         rng.shuffle(&mut branches);
     }
     let alt = format!("{{{}}}", branches.join(","));
-    match rng.below(8) {
+    match rng.below(10) {
+        8 => format!("{}/*", alt.replace("/}", "}").replace("/,", ",")),
+        9 => format!("{}/**/*.txt", alt.replace("/}", "}").replace("/,", ",")),
         0 => format!("x/{}", alt),
         1 => format!("{}/y", alt.replace("/}", "}").replace("/,", ",")),
         2 => format!("<{}/:2>", alt.replace("/}", "}").replace("/,", ",")),
